@@ -264,7 +264,7 @@ class SendExec:
             for i in range(0, len(wire), 64):
                 for j in range(i, min(i + 64, len(wire))):
                     rs.data_received(wire[j:j + 1])
-                    if rs.reader._state == 1 and getattr(rs.reader, "_opcode", -1) == -1:  # at a frame boundary, no message open
+                    if getattr(rs.reader, "_state", 1) == 1 and getattr(rs.reader, "_opcode", -1) == -1:  # frame boundary, no message open
                         self.loop.run_until_idle()
                         if len(rs.got) != seen:
                             seen = len(rs.got)
